@@ -1081,9 +1081,26 @@ def value_attr(it, base, name, node):
         return ExtRef("unknown." + name, recv=b)
     if isinstance(b, MatchVal):
         return ExtRef("Match." + name, recv=b)
+    if isinstance(b, RandVal):
+        return ExtRef("Random." + name, recv=b)
+    if isinstance(b, RstrVal):
+        return ExtRef("Rstr." + name, recv=b)
     if isinstance(b, int):
         raise _CE(f"int attribute {name}")
     raise _CE(f"attribute {name} of {b!r}")
+
+
+class RandVal:
+    """A random.Random instance: ``seeded`` False when built without arguments (OS entropy)."""
+
+    def __init__(self, seeded, origin=None):
+        self.seeded = seeded
+        self.origin = origin
+
+
+class RstrVal:
+    def __init__(self, gen):
+        self.gen = gen
 
 
 class FileVal:
